@@ -323,11 +323,12 @@ theorem escape_parse_tree_any_options (isPrint : Nat → Bool) (orc : Parser.Ora
 
 /-! #### from the tree to the specification -/
 
-/-- the specification pattern the reducer slice assigns to a raw tree read left to right
-    (`RewriteDecisions.toPat false ∘ Reduce.toR ∘ Reduce.ofRaw`: the denotation `Props/C01.lean` part (ii) and the
-    `RewriteDecisions` soundness theorems speak about) -/
-def rawDenotation (root : Parser.RNode) : Spec.Pat :=
-  RewriteDecisions.toPat false (Reduce.toR (Reduce.ofRaw root))
+/-- the specification pattern the reducer slice assigns to a raw tree read in direction `rtl`
+    (`RewriteDecisions.toPat rtl ∘ Reduce.toR ∘ Reduce.ofRaw`: the denotation `Props/C01.lean` part (ii) and the
+    `RewriteDecisions` soundness theorems speak about; `rtl` = the tree's RightToLeft option, as in
+    `Compile.toPatRoot X ti.rtl`) -/
+def rawDenotation (rtl : Bool) (root : Parser.RNode) : Spec.Pat :=
+  RewriteDecisions.toPat rtl (Reduce.toR (Reduce.ofRaw root))
 
 /-- **A literal tree matches exactly its text** (specification level, left to right).  If the Concatenate `c`
     spells `w` (and is not RightToLeft), then the denotation of the tree `literalRoot opts c`, started in any state
@@ -335,7 +336,7 @@ def rawDenotation (root : Parser.RNode) : Spec.Pat :=
     `w` and records group 0 over it — and no success otherwise. -/
 theorem lit_tree_matches_exactly (e : Spec.Env) (opts : Parser.Opts) (c : Parser.RNode) (w : List Nat)
     (hs : spells c w) (hc : c.t = .concatenate) (hr : c.o.r = false) (st : Spec.St) :
-    Spec.m e (rawDenotation (literalRoot opts c)) false st =
+    Spec.m e (rawDenotation false (literalRoot opts c)) false st =
       if (e.text.drop st.pos).take w.length = w then
         [{ pos := st.pos + w.length, caps := st.caps ++ [(0, st.pos, w.length)] }] else [] := by
   obtain ⟨t, o, ch, str, set, m, n, kids⟩ := c
@@ -347,49 +348,94 @@ theorem lit_tree_matches_exactly (e : Spec.Env) (opts : Parser.Opts) (c : Parser
     · simpa [Parser.RNode.o, Parser.RNode.kids, show o.r = false from hr] using h
   exact Lemmas.EscapeSpec.m_litRoot e opts o ch str set m n kids w hk st
 
-/-- **C19, the chain Escape → parser → tree → specification** (left to right, no IgnoreCase): `Parse(Escape(s))`
-    succeeds and the specification pattern of its raw tree matches, from any position of any text, exactly the
-    occurrence of `s` at that position (one success, group 0 = that occurrence) and nothing else.
+/-- **The same right to left**: if the RightToLeft Concatenate `c` spells `w` (its children are stored reversed),
+    the denotation read right to left has exactly one success when the text BEFORE `st.pos` ends with `w` — it
+    ends right before `w`, group 0 over it — and none otherwise. -/
+theorem lit_tree_matches_exactly_rtl (e : Spec.Env) (opts : Parser.Opts) (c : Parser.RNode) (w : List Nat)
+    (hs : spells c w) (hc : c.t = .concatenate) (hr : c.o.r = true) (st : Spec.St) :
+    Spec.m e (rawDenotation true (literalRoot opts c)) true st =
+      if w.length ≤ st.pos ∧ (e.text.drop (st.pos - w.length)).take w.length = w then
+        [{ pos := st.pos - w.length, caps := st.caps ++ [(0, st.pos - w.length, w.length)] }] else [] := by
+  obtain ⟨t, o, ch, str, set, m, n, kids⟩ := c
+  simp only [Parser.RNode.t] at hc
+  subst hc
+  have hk : Parser.kidsRunes kids.reverse = some w := by
+    rcases hs with h | ⟨_, h⟩
+    · cases set <;> cases kids <;> simp [Parser.leafRunes] at h
+    · simpa [Parser.RNode.o, Parser.RNode.kids, show o.r = true from hr] using h
+  have := Lemmas.EscapeSpec.m_litRoot_rtl e opts o ch str set m n kids.reverse w hk st
+  rw [List.reverse_reverse] at this
+  exact this
+
+/-- **C19, the chain Escape → parser → tree → specification** (no IgnoreCase; both directions): `Parse(Escape(s))`
+    succeeds and the specification pattern of its raw tree, read in the pattern's direction, matches from any
+    position of any text exactly the occurrence of `s` at that position (left to right: starting there; right to
+    left: ending there) — one success, group 0 = that occurrence — and nothing else.
     NOT included (not a Lean theorem anywhere in the framework, see `Props/C01.lean` (ii)): that the reducer
     (`Reduce.reduceTree`, which turns this tree into the one the writer compiles) keeps the denotation; from the
     reduced tree on, `compile_correct` (C01: One/Multi/Concatenate are tier 1) ties the program to `Spec.m`. -/
 theorem escape_matches_exactly (isPrint : Nat → Bool) (orc : Parser.Oracles)
     (hW : ∀ c, Generated.metaChars.contains c = true → orc.isWord c = false)
     (hP : ∀ c, 9 ≤ c → c ≤ 13 → isPrint c = false)
-    (opts : Parser.Opts) (hi : opts.i = false) (hr : opts.r = false) (mco : Bool) (s : List Nat) :
+    (opts : Parser.Opts) (hi : opts.i = false) (mco : Bool) (s : List Nat) :
     ∃ t, Parser.parse { pat := escape isPrint s, opts := opts, mco := mco, orc := orc } = .ok t ∧
-      ∀ (e : Spec.Env) (st : Spec.St), Spec.m e (rawDenotation t.root) false st =
-        if (e.text.drop st.pos).take s.length = s then
-          [{ pos := st.pos + s.length, caps := st.caps ++ [(0, st.pos, s.length)] }] else [] := by
+      ∀ (e : Spec.Env) (st : Spec.St), Spec.m e (rawDenotation opts.r t.root) opts.r st =
+        if opts.r then
+          (if s.length ≤ st.pos ∧ (e.text.drop (st.pos - s.length)).take s.length = s then
+            [{ pos := st.pos - s.length, caps := st.caps ++ [(0, st.pos - s.length, s.length)] }] else [])
+        else
+          (if (e.text.drop st.pos).take s.length = s then
+            [{ pos := st.pos + s.length, caps := st.caps ++ [(0, st.pos, s.length)] }] else []) := by
   obtain ⟨c, h1, h2, h3, h4, _⟩ := escape_parses_as_literal_full isPrint orc hW hP opts hi mco s
-  exact ⟨_, h1, fun e st => lit_tree_matches_exactly e opts c s h2 h3 (by rw [h4]; exact hr) st⟩
+  refine ⟨_, h1, fun e st => ?_⟩
+  cases hr : opts.r
+  · simpa using lit_tree_matches_exactly e opts c s h2 h3 (by rw [h4]; exact hr) st
+  · simpa using lit_tree_matches_exactly_rtl e opts c s h2 h3 (by rw [h4]; exact hr) st
 
 /-- **Anchored at both ends, it matches the text `s` and nothing else**: the specification pattern of the tree of
-    `Escape s`, started at position 0 with no captures, has a success that ends at the end of the text if and only
-    if the text is `s`. -/
+    `Escape s`, started with no captures at the start of the text (at its end, for a RightToLeft pattern), has a
+    success that reaches the other end of the text if and only if the text is `s`. -/
 theorem escape_anchored_matches_only_s (isPrint : Nat → Bool) (orc : Parser.Oracles)
     (hW : ∀ c, Generated.metaChars.contains c = true → orc.isWord c = false)
     (hP : ∀ c, 9 ≤ c → c ≤ 13 → isPrint c = false)
-    (opts : Parser.Opts) (hi : opts.i = false) (hr : opts.r = false) (mco : Bool) (s : List Nat) :
+    (opts : Parser.Opts) (hi : opts.i = false) (mco : Bool) (s : List Nat) :
     ∃ t, Parser.parse { pat := escape isPrint s, opts := opts, mco := mco, orc := orc } = .ok t ∧
-      ∀ (e : Spec.Env), (∃ st' ∈ Spec.m e (rawDenotation t.root) false { pos := 0, caps := [] },
-        st'.pos = e.text.length) ↔ e.text = s := by
-  obtain ⟨t, h1, h2⟩ := escape_matches_exactly isPrint orc hW hP opts hi hr mco s
+      ∀ (e : Spec.Env), (∃ st' ∈ Spec.m e (rawDenotation opts.r t.root) opts.r
+          { pos := if opts.r then e.text.length else 0, caps := [] },
+        st'.pos = if opts.r then 0 else e.text.length) ↔ e.text = s := by
+  obtain ⟨t, h1, h2⟩ := escape_matches_exactly isPrint orc hW hP opts hi mco s
   refine ⟨t, h1, fun e => ?_⟩
   rw [h2]
-  simp only [List.drop_zero, Nat.zero_add]
-  constructor
-  · rintro ⟨st', hmem, hpos⟩
-    split at hmem
-    · rename_i htake
-      simp at hmem
-      subst hmem
-      simp only at hpos
-      rw [← htake, hpos, List.take_length]
-    · simp at hmem
-  · intro h
-    rw [h]
-    simp
+  cases hr : opts.r
+  · simp only [Bool.false_eq_true, if_false, List.drop_zero, Nat.zero_add]
+    constructor
+    · rintro ⟨st', hmem, hpos⟩
+      split at hmem
+      · rename_i htake
+        simp at hmem
+        subst hmem
+        simp only at hpos
+        rw [← htake, hpos, List.take_length]
+      · simp at hmem
+    · intro h
+      rw [h]
+      simp
+  · simp only [if_true]
+    constructor
+    · rintro ⟨st', hmem, hpos⟩
+      split at hmem
+      · rename_i hcond
+        simp at hmem
+        subst hmem
+        simp only at hpos
+        have hlen : e.text.length = s.length := by omega
+        have := hcond.2
+        rw [hlen, Nat.sub_self, List.drop_zero, ← hlen, List.take_length] at this
+        exact this
+      · simp at hmem
+    · intro h
+      rw [h]
+      simp
 
 /-- non-vacuity of `lit_tree_matches_exactly`: the tree of `a\.b`; on the text `xa.b` it matches at position 1
     and not at position 0 -/
@@ -397,11 +443,16 @@ example : spells (.mk .concatenate {} 0 [] none 0 0
     [.mk .one {} 97 [] none 0 0 [], .mk .one {} 46 [] none 0 0 [], .mk .one {} 98 [] none 0 0 []]) [97, 46, 98] := by
   decide
 example : Spec.m { text := [120, 97, 46, 98], textstart := 0, named := [], word := [], fold := [] }
-    (rawDenotation (literalRoot {} (.mk .concatenate {} 0 [] none 0 0
+    (rawDenotation false (literalRoot {} (.mk .concatenate {} 0 [] none 0 0
       [.mk .one {} 97 [] none 0 0 [], .mk .multi {} 0 [46, 98] none 0 0 []]))) false { pos := 1, caps := [] } =
     [{ pos := 4, caps := [(0, 1, 3)] }] := by decide +kernel
+/-- right to left, the children stored reversed: from position 4 back to 1 -/
 example : Spec.m { text := [120, 97, 46, 98], textstart := 0, named := [], word := [], fold := [] }
-    (rawDenotation (literalRoot {} (.mk .concatenate {} 0 [] none 0 0
+    (rawDenotation true (literalRoot { r := true } (.mk .concatenate { r := true } 0 [] none 0 0
+      [.mk .multi { r := true } 0 [46, 98] none 0 0 [], .mk .one { r := true } 97 [] none 0 0 []]))) true
+    { pos := 4, caps := [] } = [{ pos := 1, caps := [(0, 1, 3)] }] := by decide +kernel
+example : Spec.m { text := [120, 97, 46, 98], textstart := 0, named := [], word := [], fold := [] }
+    (rawDenotation false (literalRoot {} (.mk .concatenate {} 0 [] none 0 0
       [.mk .one {} 97 [] none 0 0 [], .mk .multi {} 0 [46, 98] none 0 0 []]))) false { pos := 0, caps := [] } = [] := by
   decide +kernel
 
